@@ -145,36 +145,77 @@ package trend
 //@ ensures[C03] consumed(values) == len(values) && closed(result)
 //@ ensures[C04] forall kk :: 0 <= kk && kk < len(result) ==> hor(result, kk) <= hor(values, kk + (h.IdlePeriod()))
 
+// DEMA = (2 * EMA1(values)) - EMA2(EMA1(values)), both at the same bar
+//@ stream demaS(c stream, P1 int, m1 real, P2 int, m2 real)[k] = 2 * emaSt(c, P1, m1)[k + P2 - 1] - emaS(emaSt(c, P1, m1), P2, m2, k)
 //@ func Dema.Compute
 //@ requires d.Ema1.Period >= 1 && d.Ema2.Period >= 1 && consumed(c) == 0
 //@ ensures[C02] len(result) == max(0, len(c) - (d.IdlePeriod()))
 //@ ensures[C03] consumed(c) == len(c) && closed(result)
 //@ ensures[C04] forall kk :: 0 <= kk && kk < len(result) ==> hor(result, kk) <= hor(c, kk + (d.IdlePeriod()))
+//@ step[C01] "ema1" forall j :: 0 <= j && j < len(ema1[1]) ==> ema1[0][j] == emaSt(c, d.Ema1.Period, emam(d.Ema1))[j] && ema1[1][j] == emaSt(c, d.Ema1.Period, emam(d.Ema1))[j]
+//@ use ema_cong(ema1[1], emaSt(c, d.Ema1.Period, emam(d.Ema1)), d.Ema2.Period, emam(d.Ema2), _)
+//@ step[C01] "as-implemented" forall k :: 0 <= k && k < len(result) ==> result[k] == 2 * emaSt(c, d.Ema1.Period, emam(d.Ema1))[k] - emaS(emaSt(c, d.Ema1.Period, emam(d.Ema1)), d.Ema2.Period, emam(d.Ema2), k)
+//@ ensures[C01] "documented" forall k :: 0 <= k && k < len(result) ==> result[k] == demaS(c, d.Ema1.Period, emam(d.Ema1), d.Ema2.Period, emam(d.Ema2))[k]
 
+// TEMA = (3 * EMA1) - (3 * EMA2) + EMA3, EMA1 = EMA(values), EMA2 = EMA(EMA1), EMA3 = EMA(EMA2), all at the same bar
+//@ stream temaS(c stream, P1 int, m1 real, P2 int, m2 real, P3 int, m3 real)[k] = 3 * emaSt(c, P1, m1)[k + P2 - 1 + P3 - 1] - 3 * emaSt(emaSt(c, P1, m1), P2, m2)[k + P3 - 1] + emaS(emaSt(emaSt(c, P1, m1), P2, m2), P3, m3, k)
 //@ func Tema.Compute
 //@ requires t.Ema1.Period >= 1 && t.Ema2.Period >= 1 && t.Ema3.Period >= 1 && consumed(c) == 0
 //@ ensures[C02] len(result) == max(0, len(c) - (t.IdlePeriod()))
 //@ ensures[C03] consumed(c) == len(c) && closed(result)
 //@ ensures[C04] forall kk :: 0 <= kk && kk < len(result) ==> hor(result, kk) <= hor(c, kk + (t.IdlePeriod()))
+//@ step[C01] "ema1" forall j :: 0 <= j && j < len(res(Duplicate, 0)[0]) ==> res(Duplicate, 0)[0][j] == emaSt(c, t.Ema1.Period, emam(t.Ema1))[j] && res(Duplicate, 0)[1][j] == emaSt(c, t.Ema1.Period, emam(t.Ema1))[j]
+//@ use ema_cong(res(Duplicate, 0)[0], emaSt(c, t.Ema1.Period, emam(t.Ema1)), t.Ema2.Period, emam(t.Ema2), _)
+//@ step[C01] "ema2" forall j :: 0 <= j && j < len(res(Duplicate, 1)[0]) ==> res(Duplicate, 1)[0][j] == emaSt(emaSt(c, t.Ema1.Period, emam(t.Ema1)), t.Ema2.Period, emam(t.Ema2))[j] && res(Duplicate, 1)[1][j] == emaSt(emaSt(c, t.Ema1.Period, emam(t.Ema1)), t.Ema2.Period, emam(t.Ema2))[j]
+//@ use ema_cong(res(Duplicate, 1)[0], emaSt(emaSt(c, t.Ema1.Period, emam(t.Ema1)), t.Ema2.Period, emam(t.Ema2)), t.Ema3.Period, emam(t.Ema3), _)
+//@ step[C01] "formula" forall k :: 0 <= k && k < len(result) ==> result[k] == temaS(c, t.Ema1.Period, emam(t.Ema1), t.Ema2.Period, emam(t.Ema2), t.Ema3.Period, emam(t.Ema3))[k]
+//@ ensures[C01] "documented" forall k :: 0 <= k && k < len(result) ==> result[k] == temaS(c, t.Ema1.Period, emam(t.Ema1), t.Ema2.Period, emam(t.Ema2), t.Ema3.Period, emam(t.Ema3))[k]
 
+// TRIMA = SMA(period / 2, SMA((period / 2) + 1, values)) for an even period, SMA((period + 1) / 2, SMA((period + 1) / 2, values)) for an odd one
+//@ macro trimaP1(P) = (P % 2 == 0 ? P / 2 : (P + 1) / 2)
+//@ macro trimaP2(P) = (P % 2 == 0 ? P / 2 + 1 : (P + 1) / 2)
+//@ stream trimaS(c stream, P int)[k] = smaS(smaS(c, trimaP2(P)), trimaP1(P))[k]
 //@ func Trima.Compute
 //@ requires t.Period >= 1 && consumed(c) == 0
 //@ ensures[C02] len(result) == max(0, len(c) - (t.IdlePeriod()))
 //@ ensures[C03] consumed(c) == len(c) && closed(result)
 //@ ensures[C04] forall kk :: 0 <= kk && kk < len(result) ==> hor(result, kk) <= hor(c, kk + (t.IdlePeriod()))
+//@ step[C01] "periods" sma1.Period == trimaP1(t.Period) && sma2.Period == trimaP2(t.Period)
+//@ step[C01] "inner" forall j :: 0 <= j && j < len(res(Sma_Compute, 0)) ==> res(Sma_Compute, 0)[j] == smaS(c, sma2.Period)[j]
+//@ use psum_cong(res(Sma_Compute, 0), smaS(c, sma2.Period), _)
+//@ step[C01] "outer-even" t.Period % 2 == 0 ==> (forall k :: 0 <= k && k < len(result) ==> result[k] == smaS(smaS(c, t.Period / 2 + 1), t.Period / 2)[k])
+//@ step[C01] "outer-odd" t.Period % 2 != 0 ==> (forall k :: 0 <= k && k < len(result) ==> result[k] == smaS(smaS(c, (t.Period + 1) / 2), (t.Period + 1) / 2)[k])
+//@ ensures[C01] "documented" forall k :: 0 <= k && k < len(result) ==> result[k] == trimaS(c, t.Period)[k]
 
+// EMA1 = EMA(period, values), EMA2 = EMA(period, EMA1), EMA3 = EMA(period, EMA2), TRIX = (EMA3 - Previous EMA3) / Previous EMA3
+//@ stream ema3S(c stream, P int)[k] = emaS(emaSt(emaSt(c, P, 2 / real(P + 1)), P, 2 / real(P + 1)), P, 2 / real(P + 1), k)
+//@ stream trixS(c stream, P int)[k] = (ema3S(c, P)[k + 1] - ema3S(c, P)[k]) / ema3S(c, P)[k]
 //@ func Trix.Compute
 //@ requires t.Period >= 1 && consumed(c) == 0
 //@ ensures[C02] len(result) == max(0, len(c) - (t.IdlePeriod()))
 //@ ensures[C03] consumed(c) == len(c) && closed(result)
 //@ ensures[C04] forall kk :: 0 <= kk && kk < len(result) ==> hor(result, kk) <= hor(c, kk + (t.IdlePeriod()))
+//@ step[C01] "ema1" forall j :: 0 <= j && j < len(res(Ema_Compute, 0)) ==> res(Ema_Compute, 0)[j] == emaSt(c, t.Period, 2 / real(t.Period + 1))[j]
+//@ use ema_cong(res(Ema_Compute, 0), emaSt(c, t.Period, 2 / real(t.Period + 1)), t.Period, 2 / real(t.Period + 1), _)
+//@ step[C01] "ema2" forall j :: 0 <= j && j < len(res(Ema_Compute, 1)) ==> res(Ema_Compute, 1)[j] == emaSt(emaSt(c, t.Period, 2 / real(t.Period + 1)), t.Period, 2 / real(t.Period + 1))[j]
+//@ use ema_cong(res(Ema_Compute, 1), emaSt(emaSt(c, t.Period, 2 / real(t.Period + 1)), t.Period, 2 / real(t.Period + 1)), t.Period, 2 / real(t.Period + 1), _)
+//@ step[C01] "ema3" forall j :: 0 <= j && j < len(res(Ema_Compute, 2)) ==> res(Ema_Compute, 2)[j] == emaS(emaSt(emaSt(c, t.Period, 2 / real(t.Period + 1)), t.Period, 2 / real(t.Period + 1)), t.Period, 2 / real(t.Period + 1), j)
+//@ ensures[C01] "documented" forall k :: 0 <= k && k < len(result) ==> result[k] == trixS(c, t.Period)[k]
 
+// MACD = 12-Period EMA - 26-Period EMA at the same bar; Signal = 9-Period EMA of MACD
+//@ stream macdS(c stream, P1 int, m1 real, P2 int, m2 real)[k] = emaS(c, P1, m1, k + P2 - P1) - emaS(c, P2, m2, k)
 //@ func Macd.Compute
 //@ requires 1 <= m.Ema1.Period && m.Ema1.Period <= m.Ema2.Period && m.Ema3.Period >= 1 && consumed(c) == 0
 //@ ensures[C02] len(result0) == max(0, len(c) - (m.IdlePeriod())) && len(result1) == max(0, len(c) - (m.IdlePeriod()))
 //@ ensures[C03] consumed(c) == len(c) && closed(result0) && closed(result1)
 //@ ensures[C04] forall kk :: 0 <= kk && kk < len(result0) ==> hor(result0, kk) <= hor(c, kk + (m.IdlePeriod()))
 //@ ensures[C04] forall kk :: 0 <= kk && kk < len(result1) ==> hor(result1, kk) <= hor(c, kk + (m.IdlePeriod()))
+//@ use ema_cong(snapshots[0], c, m.Ema1.Period, emam(m.Ema1), _)
+//@ use ema_cong(snapshots[1], c, m.Ema2.Period, emam(m.Ema2), _)
+//@ step[C01] "macd-line" forall j :: 0 <= j && j < len(macds[1]) ==> macds[1][j] == macdS(c, m.Ema1.Period, emam(m.Ema1), m.Ema2.Period, emam(m.Ema2))[j]
+//@ use ema_cong(macds[1], macdS(c, m.Ema1.Period, emam(m.Ema1), m.Ema2.Period, emam(m.Ema2)), m.Ema3.Period, emam(m.Ema3), _)
+//@ ensures[C01] "macd" forall k :: 0 <= k && k < len(result0) ==> result0[k] == macdS(c, m.Ema1.Period, emam(m.Ema1), m.Ema2.Period, emam(m.Ema2))[k + m.Ema3.Period - 1]
+//@ ensures[C01] "signal" forall k :: 0 <= k && k < len(result1) ==> result1[k] == emaS(macdS(c, m.Ema1.Period, emam(m.Ema1), m.Ema2.Period, emam(m.Ema2)), m.Ema3.Period, emam(m.Ema3), k)
 
 // Apo has no IdlePeriod method; its formula (fast EMA - slow EMA) implies SlowPeriod-1
 // APO = Fast - Slow, Fast = Ema(values, fastPeriod), Slow = Ema(values, slowPeriod), both at the same bar
